@@ -3,6 +3,8 @@
 
      driver enum <alphabet-hex> <len> <lo> <hi> <full|hash>
      driver stdin <full|hash>
+     driver gates       (prints the translated and the transcribed gate tables)
+     driver vf          (names from stdin: validate_field for both variants + spec_name_ok)
 
    full: per string and dialect (5, 10) one line
          <impl-line fx=false> \t <impl-line fx=true> \t <spec>
@@ -114,6 +116,35 @@ let () =
       incr i
     done with End_of_file -> ());
     if !hashing && !i > 0 then flush_block (((!i - 1) / block) * block)
+  end else if Array.length a >= 2 && a.(1) = "vf" then begin
+    (* per name: <hex> <176 digits fx=false> \t <176 digits fx=true> \t <11 digits: 1 = the
+       Standards refuse the name as a new field name in pedantic mode at Version 0..10> *)
+    (try while true do
+      let line = String.trim (input_line stdin) in
+      let s = List.map (fun c -> ntab.(c)) (unhex line) in
+      let digits fx =
+        let b = Buffer.create 176 in
+        List.iter (fun ty -> List.iter (fun k -> List.iter (fun st ->
+          for v = 0 to 10 do
+            Buffer.add_char b (if validate_field fx ty (nat_of_int k) (nat_of_int v) st s then '1' else '0')
+          done) [false; true]) [0; 2]) [VF_NAME; VF_AFFIX; VF_NS; VF_CODE];
+        Buffer.contents b in
+      let spec = String.init 11 (fun v -> if spec_name_ok (nat_of_int v) s then '0' else '1') in
+      Printf.printf "%s %s\t%s\t%s\n" line (digits false) (digits true) spec
+    done with End_of_file -> ());
+    exit 0
+  end else if Array.length a >= 2 && a.(1) = "gates" then begin
+    (* the two gate tables: per name (index in all_gnames), Version 0..10, mode *)
+    List.iteri (fun i g ->
+      Printf.printf "GATE %d %d %d\n" i
+        (match code_gate g with Some v -> int_of_nat v | None -> -1) (int_of_nat (spec_gate g));
+      for v = 0 to 10 do
+        List.iter (fun ped ->
+          Printf.printf "G %d %d %d %d %d\n" i v (if ped then 1 else 0)
+            (if code_applies ped (nat_of_int v) g then 1 else 0)
+            (if spec_applies ped (nat_of_int v) g then 1 else 0)) [false; true]
+      done) all_gnames;
+    exit 0
   end else exit 2;
   Printf.printf "STATS strings=%d nontrivial=%d spec_errors=%d fix_differs=%d fixed_vs_spec=%d current_vs_spec=%d pending=[%s] bad=[%s]\n"
     !n_strings !n_nontrivial !n_err !n_fix_differs !n_spec_vs_fixed !n_spec_vs_cur
